@@ -12,14 +12,30 @@
 size_t G_mc;   /* ghost index: never assigned by code under proof */
 #endif
 #endif
+/* a job may give memcpy its own index expression over the parameters (dst, src, n) and the job's ghosts */
+#ifdef G_MC_MEMCPY_EXPR
+#define MEMCPY_IDX ((size_t)(G_MC_MEMCPY_EXPR))
+#else
+#define MEMCPY_IDX G_mc
+#endif
+#ifdef G_MC_MEMSET_EXPR
+#define MEMSET_IDX ((size_t)(G_MC_MEMSET_EXPR))
+#else
+#define MEMSET_IDX G_mc
+#endif
 void *memcpy(void *dst, const void *src, size_t n)
 REQUIRES(n == 0 || (WR_OK(dst, n) && RD_OK(src, n)))
 /* no overlap (C11 7.24.2.1) */
 REQUIRES(n == 0 || !__CPROVER_same_object(dst, src) ||
 	__CPROVER_POINTER_OFFSET(dst) + n <= __CPROVER_POINTER_OFFSET(src) || __CPROVER_POINTER_OFFSET(src) + n <= __CPROVER_POINTER_OFFSET(dst))
+#ifdef CONTRACT_MEMCPY_WHOLE_OBJECT
+/* coarser frame (the whole destination object), constant-size havoc: for callers whose postcondition does not read the copy */
+ASSIGNS(n != 0: OBJ_WHOLE((uint8_t *)dst))
+#else
 ASSIGNS(n != 0: OBJ_UPTO((uint8_t *)dst, n))
+#endif
 ENSURES(RET == dst)
-ENSURES(G_mc < n IMPLIES ((const uint8_t *)dst)[G_mc] == ((const uint8_t *)src)[G_mc])
+ENSURES(MEMCPY_IDX < n IMPLIES ((const uint8_t *)dst)[MEMCPY_IDX] == ((const uint8_t *)src)[MEMCPY_IDX])
 ;
 /* memcmp as an arbitrary total order test over readable ranges (result unconstrained).
    Recording variant: what was compared, over how many bytes, and the answer (P-TAINT). */
@@ -40,6 +56,12 @@ ASSIGNS()
 ENSURES((RET == 0 && G_mc < n) IMPLIES ((const uint8_t *)a)[G_mc] == ((const uint8_t *)b)[G_mc])
 ;
 #endif
+void *memset(void *dst, int c, size_t n)
+REQUIRES(n == 0 || WR_OK(dst, n))
+ASSIGNS(n != 0: OBJ_UPTO((uint8_t *)dst, n))
+ENSURES(RET == dst)
+ENSURES(MEMSET_IDX < n IMPLIES ((const uint8_t *)dst)[MEMSET_IDX] == (uint8_t)c)
+;
 /* src/hex.c helpers */
 void gmssl_secure_clear(void *ptr, size_t len)
 REQUIRES(len == 0 || WR_OK(ptr, len))
